@@ -21,7 +21,7 @@ from ..acc import Acc
 ID = "C14"
 LEVEL = "model_checking"
 TECHNIQUE = "explicit-state BFS over the real cache objects against a policy transition relation + exhaustive preemption-bounded interleavings (baton scheduler) with a linearizability oracle"
-RULE = ("A: LRUCache/HybridCache/SimpleCache/DiskCache(+/- in-memory LRU), max_size 1..3, keys a,b,c, values 1,None, durations 0,2,3: BFS over "
+RULE = ("A: LRUCache/HybridCache/SimpleCache/DiskCache(+/- in-memory LRU), max_size 1..3 (HybridCache max_size 2 also with weights (1,0) and (0.2,0.8)), keys a,b,c, values 1,None, durations 0,2,3: BFS over "
         "put/get/clear(/reopen) to depth D (quick: lru 5, hybrid 4, simple 3, disk 3; thorough: 7/5/4/4) from the implementation's own state; contains/len read at every state. B: every 2-thread program "
         "with 1..2 operations per thread on colliding keys, all interleavings with <= 2 preemptions. C: every history over put/get/clear of length <= 3 (thorough 4), plus put;clear;put;x, x every "
         "assignment of its steps to two forked processes")
@@ -168,7 +168,8 @@ def make(cfg, folder=None):
     if kind == "lru":
         return pc.LRUCache(max_size=cfg["max_size"], shared=cfg.get("shared", False), allow_cloudpickle=cfg.get("cp", False))
     if kind == "hybrid":
-        return pc.HybridCache(max_size=cfg["max_size"], shared=cfg.get("shared", False), allow_cloudpickle=cfg.get("cp", False))
+        w = {"access_weight": cfg["weights"][0], "duration_weight": cfg["weights"][1]} if cfg.get("weights") else {}
+        return pc.HybridCache(max_size=cfg["max_size"], shared=cfg.get("shared", False), allow_cloudpickle=cfg.get("cp", False), **w)
     if kind == "simple":
         return pc.SimpleCache()
     if kind == "disk":
@@ -345,7 +346,8 @@ def check_step(cfg, before, op, ret, after, rd_after, reopened_smaller=False):  
                 return ("eviction", f"re-put({k}) into full {d0} (max {ms}) evicted {sorted(evicted)}", {"op": "put"})
             # a victim must have the lowest score (exact ties leave the choice open)
             tn, tt = sum(n0.values()) or 1, sum(t0.values()) or 1
-            score = {o: 0.5 * n0[o] / tn + 0.5 * t0[o] / tt for o in d0}
+            aw, dw = cfg.get("weights") or (0.5, 0.5)
+            score = {o: aw * n0[o] / tn + dw * t0[o] / tt for o in d0}
             for o in evicted:
                 if any(score[x] < score[o] - 1e-12 for x in d0 if x != o):
                     return ("eviction", f"put({k}) into {d0} counts={n0} durations={t0}: evicted {o} (score {score[o]:.3f}) but a lower score exists {score}", {"op": "put"})
@@ -820,6 +822,9 @@ def configs(tier):
     cf.append({"kind": "disk", "max_size": 3, "lru": False, "init": full})
     cf.append({"kind": "disk", "max_size": 3, "lru": True, "lru_size": 2, "init": full})
     cf.append({"kind": "lru", "max_size": 3, "init": full})
+    # HybridCache with non-default weights (frequency only / mostly duration)
+    cf.append({"kind": "hybrid", "max_size": 2, "weights": [1.0, 0.0]})
+    cf.append({"kind": "hybrid", "max_size": 2, "weights": [0.2, 0.8]})
     cf.append({"kind": "hybrid", "max_size": 3, "init": [["put", "a", 1, 0.0], ["put", "b", 1, 2.0], ["put", "c", 1, 3.0]]})
     return cf
 
